@@ -9,6 +9,8 @@ CONSTANTS
   Skip = TRUE
   Accel = TRUE
   AccelSteps = 1
+  NFinal = 2
+  Noisy = FALSE
 INVARIANT IndInv
 INVARIANT Safety
 CHECK_DEADLOCK FALSE
